@@ -175,12 +175,22 @@ class CompiledRe:
         if self.flags & re.MULTILINE and (self.begin or self.end):
             raise EngineLimit('regex MULTILINE anchors')
         self.items = items
-        global _HOLES
-        _HOLES = self.holes
-        try:
-            self.body = to_re(items, self.flags)
-        finally:
-            _HOLES = {}
+        self._body = None
+
+    @property
+    def body(self):
+        # translated lazily: a pattern kept abstract by a contract is never translated
+        if self._body is None:
+            global _HOLES
+            _HOLES = self.holes
+            try:
+                self._body = to_re(self.items, self.flags)
+            finally:
+                _HOLES = {}
+        return self._body
+
+    def _unused(self):
+        pass
 
     def tail_re(self, full=False):
         if full or self.end == 'Z':
